@@ -28,7 +28,8 @@ def mk_member(kind, side, doc, ann):
     """side: 'rt' or 'st' (values are tagged with the side so that the origin of every merged field is observable)."""
     d = Docstring(f"{side}-doc") if doc else None
     if kind == "function":
-        ps = Parameters(Parameter("p", annotation=f"{side}_P" if ann else None, kind=PK.positional_or_keyword), Parameter(f"only_{side}", annotation=f"{side}_Q", kind=PK.keyword_only, default="0"))
+        ps = Parameters(Parameter("p", annotation=f"{side}_P" if ann else None, kind=PK.positional_or_keyword), Parameter(f"only_{side}", annotation=f"{side}_Q", kind=PK.keyword_only, default="0"),
+                        Parameter("z", annotation=f"{side}_Z" if ann else None, kind=PK.keyword_only, default="0"))  # a shared parameter AFTER a side-only one
         return Function("a", parameters=ps, returns=f"{side}_R" if ann else None, docstring=d, lineno=1, endlineno=2)
     if kind == "attribute":
         return Attribute("a", annotation=f"{side}_A" if ann else None, value=f"{side}_value", docstring=d, lineno=1, endlineno=1)
@@ -146,7 +147,9 @@ def merge(rt_kind: str, st_kind: str, route: str, bits: int) -> bool:
                         return f"return annotation {a.returns!r} not taken from the stubs"
                     if a.parameters["p"].annotation != ("st_P" if st_ann else None):
                         return "parameter annotation not taken from the stubs"
-                    if [p.name for p in a.parameters] != ["p", "only_rt"]:
+                    if a.parameters["z"].annotation != ("st_Z" if st_ann else None):
+                        return "annotation of a shared parameter that follows a stub-only parameter not taken from the stubs"
+                    if [p.name for p in a.parameters] != ["p", "only_rt", "z"]:
                         return "runtime parameters changed"
                     got_ov = None if not a.overloads else [f.returns for f in a.overloads]
                     if got_ov != (["int", "str"] if overloads else None):
